@@ -232,9 +232,7 @@ func fixedRaggedGroupBy(c *core.Ctx) {
 			[]tPlacement{
 				{{{x}, {a, b}}},
 				{{{a, b}, {x}}},
-				{{{a}, {x}, {b}}},
 				{{{x}}, {{a, b}}},
-				{{{a, x}}, {{b}}},
 				{{{a}, {x}}, {{b}}},
 			}, nil)
 	}
